@@ -48,6 +48,7 @@ TReset == /\ Is("header")
           /\ execs' = <<>>
           /\ emitted' = [op \in AllOuts |-> <<>>]
           /\ recvd' = [port \in AllInPorts |-> <<>>]
+          /\ strm' = StrmInit
 
 \* result of the wiring phase as logged by the implementation = static wiring of the model
 TWire == /\ Is("wire")
@@ -62,13 +63,13 @@ TStart == Is("run.start") /\ StartProcs
 TSendBegin ==
   /\ Is("send.begin")
   /\ \/ \E e \in EmIds : EmOut(e) = Ev.from /\ EmSendBegin(e, Ev.to)
-     \/ \E n \in CmdRun : SendOutBegin(n, Ev.from, Ev.to)
+     \/ \E n \in CmdRun : SendOutBegin(n, Ev.from, Ev.to) \/ FifoSendBegin(n, Ev.from, Ev.to)
   /\ Last(q'[Ev.to]) = <<Ev.from, Ev.item>>
 
 TSendDone ==
   /\ Is("send.done")
   /\ \/ \E e \in EmIds : EmOut(e) = Ev.from /\ EmSendDone(e, Ev.to)
-     \/ \E n \in CmdRun : SendOutDone(n, Ev.from, Ev.to)
+     \/ \E n \in CmdRun : SendOutDone(n, Ev.from, Ev.to) \/ FifoSendDone(n, Ev.from, Ev.to)
 
 \* an emitter has sent everything (inserted by the harness in front of its first conn.close)
 TEmFinish == Is("em.finish") /\ \E e \in EmIds : EmOut(e) = Ev.from /\ EmFinish(e)
@@ -82,6 +83,10 @@ TRelayRecv ==
   /\ Is("relay.recv")
   /\ IF Ev.closed THEN RelayRecv(Ev.proc, 0)
      ELSE \E i \in DOMAIN q[Ev.port] : q[Ev.port][i][2] = Ev.item /\ RelayRecv(Ev.proc, i)
+
+\* FIFO created for a streaming output of the task just taken / removed when its Done was received
+TFifoCreate == Is("fifo.create") /\ Ev.item \in strm.fifos /\ rpc[Ev.proc] = "sendfifo" /\ UNCHANGED vars
+TFifoRemove == Is("fifo.remove") /\ Ev.item \notin strm.fifos /\ Ev.item \in strm.wopen /\ UNCHANGED vars
 
 TProcStart == Is("proc.start") /\ ProcStart(Ev.proc) /\ phase' = phase /\ PR(Ev.proc).cores = Ev.cores
 
@@ -142,7 +147,7 @@ TEnd ==
 
 TraceNext ==
   \/ TReset \/ TRelayRecv \/ TEmFinish \/ TWire \/ TStart \/ TSendBegin \/ TSendDone \/ TClose \/ TProcStart \/ TRecv
-  \/ TTaskNew \/ TTaskTake \/ TDoneRecv \/ TSinkRecv \/ TFail \/ TReturn \/ TEnd
+  \/ TTaskNew \/ TTaskTake \/ TFifoCreate \/ TFifoRemove \/ TDoneRecv \/ TSinkRecv \/ TFail \/ TReturn \/ TEnd
   \/ TSimple("ct.end", CTEnd) \/ TSimple("tasks.closed", TasksClosed) \/ TSimple("proc.exit", RunExit)
   \/ TTask("exec.begin", ExBegin) \/ TTask("exec.skip", ExSkip) \/ TTask("exec.acquired", Acquire)
   \/ TTask("cmd.start", CmdStart) \/ TTask("cmd.end", CmdEnd) \/ TTask("publish", Publish)
